@@ -261,7 +261,9 @@ def inputs_json(p, **kw):
 def tiers(tier):
     if tier == "quick":
         return dict(nprob=30, npass=40, nfista=24, nas=56, nadmm=10, aswarm=80, ncold=12, nfista2=10, nseq=8, ncall=8, nadmmloop=16, nadmmpred=12, nadmmnn=6, nasfb=8)
-    return dict(nprob=240, npass=400, nfista=160, nas=640, nadmm=60, aswarm=1500, ncold=100, nfista2=80, nseq=80, ncall=48, nadmmloop=100, nadmmpred=100, nadmmnn=40, nasfb=80)
+    # round 8: thinned by about a quarter (12.1 -> ~9 CPU-minutes at VERIF_NPROC=4); the whole-function admm cases (37 s CPU per shard of 30) and
+    # the FISTA iteration cases (17 s per shard) are the expensive ones
+    return dict(nprob=180, npass=300, nfista=110, nas=500, nadmm=50, aswarm=1100, ncold=80, nfista2=80, nseq=60, ncall=48, nadmmloop=60, nadmmpred=80, nadmmnn=32, nasfb=60)
 
 
 def dyadic_start(rng, r, n, kind):
